@@ -244,7 +244,9 @@ func c16Job(shard, nshards int, tier string) Job {
 		menu := policyMenu()
 		var names []string
 		for n := range menu {
-			names = append(names, n)
+			if !strings.Contains(n, "@") {
+				names = append(names, n)
+			}
 		}
 		sort.Strings(names)
 		var polSets [][]string
@@ -279,64 +281,92 @@ func c16Job(shard, nshards int, tier string) Job {
 					break
 				}
 				c := mkCluster(ps, pl)
-				k := nfsim.New()
-				w := newPolicyWorld(k)
-				w.setCluster(c)
-				w.pm.Run()
-				ref := newRefCluster(c)
-				var addrs []string
-				for _, p := range c.Pods {
-					if p.IP != "" {
-						addrs = append(addrs, p.IP)
+				// the rules are evaluated after a sync from an empty kernel and after syncs from earlier cluster states
+				// (same policies with other pod labels; a wider version of an ipBlock policy under the same name)
+				type start struct {
+					name string
+					pods []string
+					pols []string
+				}
+				starts := []start{{"empty kernel", nil, nil}}
+				relabel := [][]string{{"web", "db", "cli2"}, {"web", "db-plain", "cli2"}}
+				for _, alt := range relabel {
+					// only label changes of the same pods on the same node (pods that vanish or move are C15's known findings)
+					if fmt.Sprint(alt) != fmt.Sprint(ps) && (fmt.Sprint(ps) == fmt.Sprint(relabel[0]) || fmt.Sprint(ps) == fmt.Sprint(relabel[1])) {
+						starts = append(starts, start{"pods " + fmt.Sprint(alt), alt, pl})
 					}
 				}
-				addrs = append(addrs, externals...)
-				for _, src := range addrs {
-					for _, dst := range addrs {
-						if src == dst {
-							continue
+				for i, pn := range pl {
+					if _, ok := menu[pn+"@wide"]; ok {
+						wide := append([]string{}, pl...)
+						wide[i] = pn + "@wide"
+						starts = append(starts, start{"policies " + fmt.Sprint(wide), ps, wide})
+					}
+				}
+				for _, st := range starts {
+					k := nfsim.New()
+					w := newPolicyWorld(k)
+					if st.pods != nil {
+						w.setCluster(mkCluster(st.pods, st.pols))
+						w.pm.Run()
+					}
+					w.setCluster(c)
+					w.pm.Run()
+					ref := newRefCluster(c)
+					var addrs []string
+					for _, p := range c.Pods {
+						if p.IP != "" {
+							addrs = append(addrs, p.IP)
 						}
-						sp, dp := ref.byIP[src], ref.byIP[dst]
-						if !((sp != nil && sp.OnNode) || (dp != nil && dp.OnNode)) {
-							continue
-						}
-						for _, proto := range []string{"tcp", "udp"} {
-							for _, port := range ports {
-								flows++
-								r.evals++
-								got, trace, err := k.Walk("filter", "FORWARD", nfsim.Packet{Src: src, Dst: dst, Proto: proto, DPort: port})
-								desc := fmt.Sprintf("pods=%v policies=%v flow %s -> %s %s/%d", ps, pl, src, dst, proto, port)
-								if err != nil {
-									r.violate("C16", name, "walk", "packet-walk-failed", "nfsim", desc+": "+err.Error(), []string{desc})
-									continue
-								}
-								want := ref.verdict(quirks{}, src, dst, proto, port)
-								r.distinct[hashOf(ps, pl, src, dst, proto, port, got)] = true
-								if len(r.samples) < 3 && r.evals%4099 == 1 {
-									r.samples = append(r.samples, fmt.Sprintf("%s: rules say %s, NetworkPolicy semantics say %s", desc, got, want))
-								}
-								if got == want {
-									continue
-								}
-								// attribute to the smallest quirk set that explains it
-								best := -1
-								for mask := 1; mask < 32; mask++ {
-									if ref.verdict(quirksOf(mask), src, dst, proto, port) == got {
-										if best < 0 || popcount(mask) < popcount(best) {
-											best = mask
+					}
+					addrs = append(addrs, externals...)
+					for _, src := range addrs {
+						for _, dst := range addrs {
+							if src == dst {
+								continue
+							}
+							sp, dp := ref.byIP[src], ref.byIP[dst]
+							if !((sp != nil && sp.OnNode) || (dp != nil && dp.OnNode)) {
+								continue
+							}
+							for _, proto := range []string{"tcp", "udp"} {
+								for _, port := range ports {
+									flows++
+									r.evals++
+									got, trace, err := k.Walk("filter", "FORWARD", nfsim.Packet{Src: src, Dst: dst, Proto: proto, DPort: port})
+									desc := fmt.Sprintf("pods=%v policies=%v (synced from: %s) flow %s -> %s %s/%d", ps, pl, st.name, src, dst, proto, port)
+									if err != nil {
+										r.violate("C16", name, "walk", "packet-walk-failed", "nfsim", desc+": "+err.Error(), []string{desc})
+										continue
+									}
+									want := ref.verdict(quirks{}, src, dst, proto, port)
+									r.distinct[hashOf(ps, pl, st.name, src, dst, proto, port, got)] = true
+									if len(r.samples) < 3 && r.evals%4099 == 1 {
+										r.samples = append(r.samples, fmt.Sprintf("%s: rules say %s, NetworkPolicy semantics say %s", desc, got, want))
+									}
+									if got == want {
+										continue
+									}
+									// attribute to the smallest quirk set that explains it
+									best := -1
+									for mask := 1; mask < 32; mask++ {
+										if ref.verdict(quirksOf(mask), src, dst, proto, port) == got {
+											if best < 0 || popcount(mask) < popcount(best) {
+												best = mask
+											}
 										}
 									}
-								}
-								if best < 0 {
-									r.violate("C16", name, "unexplained", "verdict-differs-from-networkpolicy-semantics", "unexplained",
-										fmt.Sprintf("%s: installed rules %s, semantics %s; matched rules: %v", desc, got, want, trace), []string{desc})
-									continue
-								}
-								for i, qn := range quirkNames {
-									if best&(1<<uint(i)) != 0 {
-										quirkHits[qn]++
-										r.violate("C16", name, "", "semantics-deviation", qn,
-											fmt.Sprintf("%s: installed rules %s, semantics %s (explained by deviation set %v); matched rules: %v", desc, got, want, quirkSet(best), trace), []string{desc})
+									if best < 0 {
+										r.violate("C16", name, "unexplained", "verdict-differs-from-networkpolicy-semantics", "unexplained",
+											fmt.Sprintf("%s: installed rules %s, semantics %s; matched rules: %v", desc, got, want, trace), []string{desc})
+										continue
+									}
+									for i, qn := range quirkNames {
+										if best&(1<<uint(i)) != 0 {
+											quirkHits[qn]++
+											r.violate("C16", name, "", "semantics-deviation", qn,
+												fmt.Sprintf("%s: installed rules %s, semantics %s (explained by deviation set %v); matched rules: %v", desc, got, want, quirkSet(best), trace), []string{desc})
+										}
 									}
 								}
 							}
